@@ -302,7 +302,12 @@ func (ri *RedisInput) syncMeta(ctx context.Context, redisCli *redis.StandaloneRe
 		ri.logger.Errorf("channel SetRunId error : offset(%v), err(%v)", sOffset, err)
 		return
 	}
-	err = ri.output.SetRunId(ctx, sOffset.RunId)
+	if isFullSync {
+		// the source did not continue the stored position : it is withdrawn, not relabelled
+		err = ri.output.DiscardStartPoint(ctx, sOffset.RunId)
+	} else {
+		err = ri.output.SetRunId(ctx, sOffset.RunId)
+	}
 	if err != nil {
 		ri.logger.Errorf("output SetRunId error : offset(%v), err(%v)", sOffset, err)
 		return
